@@ -63,3 +63,51 @@ package ovsdb
 //@ loop 1 invariant allTablesRoot
 //@ loop 1 invariant forall t: string :: visited(t) && (t in schema.Tables) ==> !schema.Tables[t].IsRoot
 
+
+// ---- named_uuid.go (C15) ---------------------------------------------------------
+
+//@ func ValidateUUID
+//@ pure
+//@ func IsValidUUID
+//@ pure
+
+// A value in a uuid-typed position that is a mapped name is replaced by the
+// mapped UUID (as UUID or as string); anything else is returned unchanged.
+//@ func expandNamedUUIDAtomic
+//@ pure
+//@ ensures valueType == "uuid" && istype(value, "UUID") && (unbox(value, "UUID").GoUUID in namedUUIDs) ==> (result1 && istype(result0, "UUID") && unbox(result0, "UUID").GoUUID == namedUUIDs[unbox(value, "UUID").GoUUID])
+//@ ensures valueType == "uuid" && istype(value, "string") && (unbox(value, "string") in namedUUIDs) ==> (result1 && istype(result0, "string") && unbox(result0, "string") == namedUUIDs[unbox(value, "string")])
+//@ ensures valueType != "uuid" ==> (!result1 && result0 == value)
+//@ ensures valueType == "uuid" && istype(value, "UUID") && !(unbox(value, "UUID").GoUUID in namedUUIDs) ==> (!result1 && result0 == value)
+//@ ensures valueType == "uuid" && istype(value, "string") && !(unbox(value, "string") in namedUUIDs) ==> (!result1 && result0 == value)
+//@ ensures !istype(value, "UUID") && !istype(value, "string") ==> (!result1 && result0 == value)
+
+// Expansion rewrites sets, string/UUID slices and maps in place and nothing else.
+//@ func expandNamedUUID
+//@ modifies unbox(value, "OvsSet").GoSet[*], unbox(value, "[]string")[*], unbox(value, "[]UUID")[*], unbox(value, "OvsMap").GoMap[*]
+//@ func expandColumnNamedUUIDs
+//@ modifies unbox(value, "OvsSet").GoSet[*], unbox(value, "[]string")[*], unbox(value, "[]UUID")[*], unbox(value, "OvsMap").GoMap[*]
+
+// Pass 1 of ExpandNamedUUIDs: every insert that carries a name gives the name
+// up (it is recorded or resolved), all inserts claiming one name end up with
+// one UUID (the first one's), and two inserts claiming one name with different
+// explicit UUIDs are an error.
+//@ pred NamedInsert(ops []Operation, i int) := ops[i].Op == "insert" && ops[i].UUIDName != ""
+//@ pred Pass1Done(ops []Operation) := (forall i: int :: 0 <= i && i < len(ops) ==> (ops[i].Op == old(ops[i].Op) && (ops[i].Op == "insert" ==> ops[i].UUIDName == ""))) && (forall i: int, j: int :: 0 <= i && i < j && j < len(ops) && old(NamedInsert(ops, i)) && old(NamedInsert(ops, j)) && old(ops[i].UUIDName) == old(ops[j].UUIDName) ==> (ops[i].UUID == ops[j].UUID && (old(ops[j].UUID) == "" || old(ops[j].UUID) == ops[i].UUID)))
+//@ func ExpandNamedUUIDs
+//@ requires schema != nil
+//@ ensures_ok result0 == ops
+//@ ensures_ok forall i: int :: 0 <= i && i < len(ops) && ops[i].Op == "insert" ==> ops[i].UUIDName == ""
+//@ ensures_ok forall i: int, j: int :: 0 <= i && i < j && j < len(ops) && old(NamedInsert(ops, i)) && old(NamedInsert(ops, j)) && old(ops[i].UUIDName) == old(ops[j].UUIDName) ==> ops[i].UUID == ops[j].UUID
+//@ ensures_ok forall i: int, j: int :: 0 <= i && i < j && j < len(ops) && old(NamedInsert(ops, i)) && old(NamedInsert(ops, j)) && old(ops[i].UUIDName) == old(ops[j].UUIDName) && old(ops[j].UUID) != "" ==> old(ops[j].UUID) == ops[i].UUID
+//@ loop 1 invariant uuidMap != nil && fresh(uuidMap)
+//@ loop 1 invariant forall j: int :: 0 <= j && j < len(ops) ==> ops[j].Op == old(ops[j].Op)
+//@ loop 1 invariant forall j: int :: rangeindex < j && j < len(ops) ==> (ops[j].UUIDName == old(ops[j].UUIDName) && ops[j].UUID == old(ops[j].UUID))
+//@ loop 1 invariant forall j: int :: 0 <= j && j <= rangeindex && ops[j].Op == "insert" ==> ops[j].UUIDName == ""
+//@ loop 1 invariant forall j: int :: 0 <= j && j <= rangeindex && old(NamedInsert(ops, j)) ==> ((old(ops[j].UUIDName) in uuidMap) && uuidMap[old(ops[j].UUIDName)] == ops[j].UUID && (old(ops[j].UUID) == "" || old(ops[j].UUID) == ops[j].UUID))
+//@ loop 2 invariant Pass1Done(ops)
+//@ loop 3 invariant Pass1Done(ops)
+//@ loop 4 invariant Pass1Done(ops)
+//@ loop 5 invariant Pass1Done(ops)
+//@ loop 6 invariant Pass1Done(ops)
+//@ loop 7 invariant Pass1Done(ops)
